@@ -98,7 +98,7 @@ inline Op decode(const uint8_t* b, const Profile& p) {
       if (lit) {
         o.a[CA_SLOT] = NSLOT + b[2] % NLIT;
         o.a[CA_LIT] = b[3] % (NLITFORM + NLITNAMEDV);
-        if (o.a[CA_LIT] >= NLITFORM) o.a[CA_LIT] += NLITALL - NLITFORM;   // 30..33: NAMED_ variadic spellings
+        if (o.a[CA_LIT] >= NLITFORM) o.a[CA_LIT] += NLITALL - NLITFORM;   // 30..38: NAMED_ variadic spellings, run-time bound spellings
         o.a[CA_OBJ] = p.concentrate ? (b[4] % 8 < 6 ? 0 : 1) : b[4] % NOBJ;
         lit_fill(o);  // the rest of the spec is implied by the literal form
         break;
@@ -171,6 +171,10 @@ inline Op decode(const uint8_t* b, const Profile& p) {
       break;
     }
     default: break;
+  }
+  if (kind != O_CREATE && kind != O_SCOPED && kind != O_SCOPED_DW) {   // those use every byte of the record
+    int c = b[20] % 16;
+    o.ctx = c == 0 ? 1 : c == 1 ? 2 : 0;
   }
   return o;
 }
